@@ -385,12 +385,9 @@ func OpenFile(name string, flag int, perm FileMode) (*File, error) {
 	return h, nil
 }
 
-func (h *File) Name() string {
-	if h == nil {
-		return ""
-	}
-	return h.name
-}
+// Name has no nil check, exactly like (*os.File).Name: calling it on a nil
+// *File is a nil pointer dereference.
+func (h *File) Name() string { return h.name }
 
 func (h *File) Fd() uintptr {
 	if h == nil {
